@@ -228,14 +228,26 @@ static void Table_Clear(var self) {
 
 static void Table_Assign(var self, var obj) {
   struct Table* t = self;  
+  
+  /* look at the source before the old contents are given up */
+  var ktype = implements_method(obj, Get, key_type) ? key_type(obj) : Ref;
+  var vtype = implements_method(obj, Get, val_type) ? val_type(obj) : Ref;
+  size_t nargs = len(obj);
+  
+  if (not implements_method(obj, Iter, iter_init)
+  or  not implements_method(obj, Get, get)) {
+    throw(ClassError, "Cannot assign to Table from '%s', it is not a mapping", type_of(obj));
+    return;
+  }
+  
   Table_Clear(t);
   
-  t->ktype = implements_method(obj, Get, key_type) ? key_type(obj) : Ref;
-  t->vtype = implements_method(obj, Get, val_type) ? val_type(obj) : Ref;
+  t->ktype = ktype;
+  t->vtype = vtype;
   t->ksize = Table_Size_Round(size(t->ktype));
   t->vsize = Table_Size_Round(size(t->vtype));
   t->nitems = 0;
-  t->nslots = Table_Ideal_Size(len(obj));
+  t->nslots = Table_Ideal_Size(nargs);
   
   if (t->nslots is 0) {
     t->data = NULL;
